@@ -175,7 +175,12 @@ class FQOpContract:
             return self.K(int(other))
         if isinstance(other, int):
             return self.K(other)
-        raise PyRaise(TypeError, "Expected an int or FQ object")
+        if isinstance(other, PToken) and other is self.K.modulus:
+            return Fld(R(0), self.K, reduced=False)      # the modulus itself as an int operand: 0 modulo p, not reduced
+        if other is None or isinstance(other, (str, bytes, list, tuple, dict, float)) or (isinstance(other, Obj) and not other.cls.is_subclass(self.FQbase)):
+            raise PyRaise(TypeError, "Expected an int or FQ object")
+        # a value of the engine whose Python type the model does not know: never turn that into a TypeError of the code
+        raise Unsupported(f"FQ operand of an unmodelled kind ({type(other).__name__})")
 
     def apply(self, interp, fv, env):
         vals = list(env.values())
